@@ -286,6 +286,71 @@ func (c *Ctx) EXT(rule string) []report.Obligation {
 	} else {
 		out = append(out, anchorViolation(rule+"-6", "loader.ApplyExtends"))
 	}
+	// EXT-7: an `extends` that names a file is resolved by loading that file. Whether the loading function is
+	// reached depends only on what the document says (presence tests, type tests, nil tests) and on errors - not
+	// on a predicate computed from paths or options ("it is the current file anyway"): such a shortcut resolves
+	// the base among the services of another document than the one `file` designates.
+	for _, fn := range c.P.Funcs {
+		if !strings.HasPrefix(c.P.FuncID(fn), "loader.") {
+			continue
+		}
+		for _, cs := range c.callsTo(fn, "loader.getExtendsBaseFromFile") {
+			var conds []ssa.Value
+			seenB := map[*ssa.BasicBlock]bool{}
+			addDeps := func(b *ssa.BasicBlock) {
+				if seenB[b] {
+					return
+				}
+				seenB[b] = true
+				for _, d := range prog.Info(fn).TransitiveControlDeps(b) {
+					if iff, ok := d.Branch.Instrs[len(d.Branch.Instrs)-1].(*ssa.If); ok {
+						conds = append(conds, iff.Cond)
+					}
+				}
+			}
+			addDeps(cs.Block())
+			// one level through the variables the conditions test: where their values were chosen
+			for i := 0; i < len(conds) && i < 64; i++ {
+				var ops []ssa.Value
+				if bo, ok := conds[i].(*ssa.BinOp); ok {
+					ops = []ssa.Value{bo.X, bo.Y}
+				}
+				for _, op := range ops {
+					if phi, ok := op.(*ssa.Phi); ok {
+						for j := range phi.Edges {
+							addDeps(phi.Block().Preds[j])
+						}
+					}
+				}
+			}
+			offending := ""
+			for _, cnd := range conds {
+				v, _ := unwrapNot(cnd)
+				switch x := v.(type) {
+				case *ssa.BinOp:
+					if prog.IsNilConst(x.X) || prog.IsNilConst(x.Y) {
+						continue
+					}
+					if _, isC := x.Y.(*ssa.Const); isC {
+						continue // comparison of a document value with a constant
+					}
+					offending = c.P.KeyTerm(v, 3)
+				case *ssa.Extract:
+					switch x.Tuple.(type) {
+					case *ssa.TypeAssert, *ssa.Lookup:
+						continue
+					}
+					offending = c.P.KeyTerm(v, 3)
+				case *ssa.Call:
+					offending = c.P.KeyTerm(v, 3)
+				default:
+					offending = c.P.KeyTerm(v, 3)
+				}
+			}
+			out = append(out, verdict(offending == "", rule+"-7", c.P.FuncID(fn)+" :: a named file is always loaded", c.P.InstrPos(cs),
+				"reaching getExtendsBaseFromFile depends on presence / type / nil / error tests only", "whether the file named by `extends.file` is loaded depends on "+offending+": when the shortcut is taken the base is looked up among the services of the current document, which is not the document the path designates in every case (relative top-level names, multi-document files)"))
+		}
+	}
 	return out
 }
 
